@@ -990,5 +990,9 @@ V('C11', 'nominal-yields-normalised-through-the-default-backend', 'silent', '', 
   ('src/pyhf/pdf.py', '        if not len(nom) == self.config.channel_nbins[channel]:\n', '        if not isinstance(nom, list):\n            nom = pyhf.default_backend.tolist(pyhf.default_backend.astensor(nom))\n        if not len(nom) == self.config.channel_nbins[channel]:\n'))
 V('C05', 'fixed-poi-fit-prefers-the-models-mask', 'fire', 'C05.R2', "fixed_poi_fit takes the model's fixed mask even when the caller supplies one",
   ('src/pyhf/infer/mle.py', '    fixed_params = [*(fixed_params or pdf.config.suggested_fixed())]\n', '    fixed_params = [*(pdf.config.suggested_fixed() or fixed_params)]\n'))
+V('C12', 'parameter-settings-filtered-before-the-patches', 'fire', 'C12.R12', "parameter settings are filtered to the workspace's own modifiers BEFORE the patches are applied",
+  ('src/pyhf/workspace.py', "            'parameters': measurement['config']['parameters'],\n", "            'parameters': [p for p in measurement['config']['parameters'] if p['name'] in {name for name, _ in self.modifiers}],\n"))
+V('C12', 'parameter-settings-filtered-after-the-patches', 'silent', '', 'parameter settings are filtered to the modifiers of the PATCHED specification',
+  ('src/pyhf/workspace.py', '        return Model(modelspec, **config_kwargs)\n', "        _names = {m['name'] for ch in modelspec['channels'] for smp in ch['samples'] for m in smp['modifiers']}\n        modelspec = dict(modelspec, parameters=[p for p in modelspec['parameters'] if p['name'] in _names])\n        return Model(modelspec, **config_kwargs)\n"))
 V("C13", "code4-exponent-mask-strict", "fire", "C13.R3", "code 4 takes exponent 1 (a constant) exactly at |alpha| = alpha0",
   ("src/pyhf/interpolators/code4.py", "            exponents >= self.__alpha0, exponents, self.ones", "            exponents > self.__alpha0, exponents, self.ones"))
